@@ -9,6 +9,7 @@ import (
 	"encoding/hex"
 	"fmt"
 	"math/rand"
+	"regexp"
 	"runtime"
 	"strconv"
 	"strings"
@@ -166,6 +167,13 @@ type pool struct {
 	timeout bool
 	async   *asyncConn // v0 over the asynchronous FIFO client (cfg async=1)
 
+	// v1 split mode (cfg split=1): CheckTx calls are started by `begin` and held at the application
+	// (gatedConn) until `finish i=` releases the i-th one still in flight.
+	split    bool
+	holding  bool
+	arrived  chan *heldCall
+	inflight []*heldCall
+
 	// v1 logical time (cfg ttldur=D > 0): TTLDuration = D hours; an op's now=<t> is mapped onto the
 	// wall clock the code reads by rewriting the pooled entries' timestamps (hook VerifSetTimestamp)
 	// to base + t*hour, with base chosen at every Update so that time.Now() = base + now*hour - 30min.
@@ -233,6 +241,19 @@ func (c *asyncConn) pending() (n, rechecks int) {
 	return len(c.queue), rechecks
 }
 
+// pendingRecheckOf: is a recheck answer for tx still pending
+func (c *asyncConn) pendingRecheckOf(tx types.Tx) bool {
+	c.mu.Lock()
+	defer c.mu.Unlock()
+	for _, rr := range c.queue {
+		r := rr.Request.GetCheckTx()
+		if r.Type == abci.CheckTxType_Recheck && string(r.Tx) == string(tx) {
+			return true
+		}
+	}
+	return false
+}
+
 // deliver handles the oldest pending response; false when nothing is pending
 func (c *asyncConn) deliver() bool {
 	c.mu.Lock()
@@ -263,6 +284,14 @@ func (c *asyncConn) deliver() bool {
 // phase and before addNewTransaction. During a ccheck the gate holds every submitter here until
 // all expected ones have passed the first phase, so their application calls and insertions overlap
 // the other submitters' first phases as tightly as the code allows.
+// heldCall: one CheckTx call in flight
+type heldCall struct {
+	tx      types.Tx
+	release chan struct{}
+	done    chan error
+	meP     *string
+}
+
 type gatedConn struct {
 	proxy.AppConnMempool
 	p *pool
@@ -270,6 +299,11 @@ type gatedConn struct {
 
 func (g *gatedConn) CheckTxSync(req abci.RequestCheckTx) (*abci.ResponseCheckTx, error) {
 	if req.Type == abci.CheckTxType_New {
+		if g.p.holding {
+			hc := &heldCall{tx: req.Tx, release: make(chan struct{})}
+			g.p.arrived <- hc
+			<-hc.release
+		}
 		g.p.barrier()
 	}
 	return g.AppConnMempool.CheckTxSync(req)
@@ -357,6 +391,13 @@ func newPool(m map[string]string) (*pool, bool) {
 			cfg.TTLDuration = time.Duration(v) * time.Hour
 		}
 	}
+	if sp, has := m["split"]; has {
+		if sp != "1" || ver != 1 {
+			return nil, false
+		}
+		p.split = true
+		p.arrived = make(chan *heldCall, 1)
+	}
 	if a, has := m["async"]; has {
 		if (a != "0" && a != "1") || (a == "1" && ver != 0) {
 			return nil, false
@@ -386,6 +427,9 @@ func (p *pool) obs() string {
 	if p.async != nil {
 		n, _ := p.async.pending()
 		s += fmt.Sprintf(" q=%d", n)
+	}
+	if p.split {
+		s += fmt.Sprintf(" pend=%d", len(p.inflight))
 	}
 	return s
 }
@@ -627,6 +671,69 @@ func (p *pool) peersOf(tx types.Tx) string {
 	return strings.Join(s, ",")
 }
 
+// begin: start a CheckTx and let it run until it either returns (refused in the first phase) or
+// is about to call the application, where it is held
+func (p *pool) begin(m map[string]string) string {
+	peer, ok := atoi(m["peer"])
+	if !ok || peer < 0 || peer > 65535 || !validHex(m["tx"]) || !p.split {
+		return "bad-op"
+	}
+	tx := types.Tx(unhx(m["tx"]))
+	done := make(chan error, 1)
+	me := "-"
+	p.holding = true
+	go func() {
+		done <- p.mp.CheckTx(tx, func(r *abci.Response) {
+			if c := r.GetCheckTx(); c != nil {
+				me = mempoolErrClass(c.MempoolError)
+			}
+		}, mempool.TxInfo{SenderID: uint16(peer)})
+	}()
+	select {
+	case err := <-done:
+		p.holding = false
+		return classify(err) + p.obs()
+	case hc := <-p.arrived:
+		p.holding = false
+		hc.done = done
+		hc.meP = &me
+		p.inflight = append(p.inflight, hc)
+		return "pending" + p.obs()
+	}
+}
+
+// finish: the application answers the i-th call in flight with the given verdict
+func (p *pool) finish(m map[string]string) string {
+	v, ok := parseVerdict(m)
+	i, ok2 := atoi(m["i"])
+	if !ok || !ok2 || !p.split || i < 0 || int(i) >= len(p.inflight) {
+		return "bad-op"
+	}
+	hc := p.inflight[i]
+	p.inflight = append(p.inflight[:i:i], p.inflight[i+1:]...)
+	p.app.mu.Lock()
+	p.app.first = v
+	p.app.mu.Unlock()
+	close(hc.release)
+	err := <-hc.done
+	if err != nil {
+		return classify(err) + p.obs()
+	}
+	return "ok me=" + *hc.meP + " p=" + p.peersOf(hc.tx) + p.obs()
+}
+
+// releaseAll lets every call still in flight complete (rejected) so that no goroutine is left
+func (p *pool) releaseAll() {
+	p.app.mu.Lock()
+	p.app.first = verdict{code: 1}
+	p.app.mu.Unlock()
+	for _, hc := range p.inflight {
+		close(hc.release)
+		<-hc.done
+	}
+	p.inflight = nil
+}
+
 func (p *pool) deliver(n int) (res string) {
 	defer func() {
 		if r := recover(); r != nil {
@@ -788,6 +895,11 @@ func execCase(c core.Case) []string {
 func execOnce(c core.Case) []string {
 	var out []string
 	var p *pool
+	defer func() {
+		if p != nil && p.split {
+			p.releaseAll()
+		}
+	}()
 	for _, op := range c.Ops {
 		f := strings.Fields(op)
 		if len(f) == 0 {
@@ -800,6 +912,9 @@ func execOnce(c core.Case) []string {
 			if !ok {
 				out = append(out, "bad-op")
 				continue
+			}
+			if p != nil && p.split {
+				p.releaseAll()
 			}
 			p = np
 			out = append(out, "ok"+p.obs())
@@ -819,9 +934,17 @@ func execOnce(c core.Case) []string {
 		}
 		switch f[0] {
 		case "check":
+			if p.split {
+				out = append(out, "bad-op")
+				continue
+			}
 			out = append(out, countRes(p.check(m)))
 		case "update":
 			out = append(out, countRes(p.update(m)))
+		case "begin":
+			out = append(out, p.begin(m))
+		case "finish":
+			out = append(out, p.finish(m))
 		case "deliver":
 			n, ok := atoi(m["n"])
 			if !ok || p.async == nil || n < 0 || n > 1000 {
@@ -830,13 +953,34 @@ func execOnce(c core.Case) []string {
 			}
 			out = append(out, p.deliver(int(n)))
 		case "ccheck":
-			if p.async != nil {
+			if p.async != nil || p.split {
 				out = append(out, "bad-op")
 				continue
 			}
 			out = append(out, p.ccheck(m))
+		case "rmkey":
+			if p.async == nil || !validHex(m["tx"]) {
+				out = append(out, "bad-op")
+				continue
+			}
+			tx := types.Tx(unhx(m["tx"]))
+			if p.async.pendingRecheckOf(tx) { // outside the discipline (V0.Allowed): not performed
+				out = append(out, "unsafe"+p.obs())
+				continue
+			}
+			_ = p.mp.RemoveTxByKey(tx.Key())
+			out = append(out, "ok"+p.obs())
 		case "flush":
-			if len(f) != 1 || p.async != nil {
+			if len(f) == 1 && p.async != nil {
+				if _, rc := p.async.pending(); rc > 0 {
+					out = append(out, "unsafe"+p.obs())
+				} else {
+					p.mp.Flush()
+					out = append(out, "ok"+p.obs())
+				}
+				continue
+			}
+			if len(f) != 1 || p.async != nil || p.split {
 				out = append(out, "bad-op")
 				continue
 			}
@@ -1216,6 +1360,12 @@ func oracle(c core.Case, out []string) []core.Finding {
 	aCommitted := map[string]bool{} // committed by an Update and not submitted again since
 	var qPrev int64
 	cfgPost := "-" // PostCheckMaxGas bound in force
+	// split mode (v1): calls in flight, and whether a block containing their tx was committed meanwhile
+	type inflightT struct {
+		tx      string
+		spanned bool
+	}
+	var inflight []inflightT
 	// TTL (v1): admission time / height of the pooled txs as the op lines give them
 	admT := map[string]int64{}
 	admH := map[string]int64{}
@@ -1287,6 +1437,7 @@ func oracle(c core.Case, out []string) []core.Finding {
 			maxb, _ = atoi(m["maxbytes"])
 			cache, _ = atoi(m["cache"])
 			async = m["async"] == "1"
+			inflight = nil
 			aCommitted = map[string]bool{}
 			cfgPost = "-"
 			admT, admH = map[string]int64{}, map[string]int64{}
@@ -1328,6 +1479,34 @@ func oracle(c core.Case, out []string) []core.Finding {
 		}
 		nextCommitted := ""
 		switch f[0] {
+		case "begin":
+			if o.res == "pending" {
+				inflight = append(inflight, inflightT{tx: normTok(m["tx"])})
+			} else if strings.Join(prev, ",") != strings.Join(o.all, ",") {
+				add("v1.split.refused-call-changes-pool", "a CheckTx refused in its first phase changed the pool")
+			}
+		case "finish":
+			i64, _ := atoi(m["i"])
+			if int(i64) < len(inflight) && strings.HasPrefix(o.res, "ok") {
+				fl := inflight[i64]
+				inflight = append(inflight[:i64:i64], inflight[i64+1:]...)
+				wasIn, isIn := contains(prev, fl.tx), contains(o.all, fl.tx)
+				if isIn && !wasIn {
+					gas, _ := atoi(m["gas"])
+					prio, _ := atoi(m["prio"])
+					arrival++
+					info[fl.tx] = meta{gas: gas, prio: prio, arrival: arrival}
+					admH[fl.tx] = curH
+					if fl.spanned && cache >= 10 { // cache larger than the tx alphabet: still remembered
+						add("v1.inflight-check-readmits-committed-tx", fmt.Sprintf("tx %s was committed by an Update while a CheckTx of it was in flight (between its cache check and addNewTransaction); the call then put the committed tx into the pool", fl.tx))
+					}
+				}
+				for _, t := range o.all {
+					if t != fl.tx && !contains(prev, t) {
+						add("v1.split.foreign-tx-appears", "finishing the CheckTx of "+fl.tx+" made "+t+" appear")
+					}
+				}
+			}
 		case "deliver":
 			handled := int(qPrev - o.q)
 			if aLeft > 0 && handled > 0 {
@@ -1403,6 +1582,13 @@ func oracle(c core.Case, out []string) []core.Finding {
 		case "update":
 			if m["post"] != "-" && m["post"] != "" {
 				cfgPost = m["post"]
+			}
+			for k := range inflight {
+				for _, t := range splitList(m["txs"]) {
+					if normTok(t) == inflight[k].tx {
+						inflight[k].spanned = true
+					}
+				}
 			}
 			if ver == "v1" {
 				uh, _ := atoi(m["h"])
@@ -1930,7 +2116,16 @@ func genAsync(r *rand.Rand, emit func(core.Case), n int) {
 			case x < 18:
 				ops = append(ops, fmt.Sprintf("reapn n=%d", r.Intn(size+3)-1))
 			case x < 19:
-				ops = append(ops, "deliver n=1000")
+				switch r.Intn(4) {
+				case 0:
+					ops = append(ops, "flush")
+				case 1:
+					if len(known) > 0 {
+						ops = append(ops, "rmkey tx="+strings.Replace(known[r.Intn(len(known))], "-", ".", 1))
+					}
+				default:
+					ops = append(ops, "deliver n=1000")
+				}
 			default:
 				ops = append(ops, fmt.Sprintf("reap bytes=%d gas=%d", r.Intn(30)-1, r.Intn(8)-1))
 			}
@@ -2024,6 +2219,56 @@ func genBigV1(r *rand.Rand, emit func(core.Case), n int) {
 	}
 }
 
+// genSplit (v1): CheckTx calls started (begin) and answered (finish) in any order, with block
+// updates — also of the very tx in flight — and reaps in between.
+func genSplit(r *rand.Rand, emit func(core.Case), n int) {
+	for c := 0; c < n; c++ {
+		cfg, size, _ := genCfg(r, 1)
+		cfg = strings.Replace(cfg, "ttld=1", "ttld=0", 1) + " split=1"
+		if c%3 == 0 { // a cache that forgets nothing during the case
+			cfg = regexp.MustCompile(`cache=-?\d+`).ReplaceAllString(cfg, "cache=20")
+		}
+		ops := []string{cfg}
+		k := 3 + r.Intn(5)
+		h, pend := 1, 0
+		var known, flying []string
+		for i := 0; i < 10+r.Intn(25); i++ {
+			switch x := r.Intn(20); {
+			case x < 8:
+				t := pickTx(r, k)
+				if !contains(known, t) {
+					known = append(known, t)
+				}
+				flying = append(flying, t)
+				ops = append(ops, fmt.Sprintf("begin tx=%s peer=%d", t, r.Intn(4)))
+				pend++ // upper bound: a refused call is not in flight (then finish answers bad-op)
+			case x < 15:
+				if pend > 0 {
+					v := strings.SplitN(genCheck(r, "aa", 1), " peer=", 2)[1]
+					v = v[strings.Index(v, " ")+1:]
+					ops = append(ops, fmt.Sprintf("finish i=%d %s", r.Intn(pend), v))
+					pend--
+				}
+			case x < 18:
+				h++
+				u := genUpdate(r, h, k, known)
+				if len(flying) > 0 && r.Intn(2) == 0 { // commit a tx that may be in flight
+					u = fmt.Sprintf("update h=%d txs=%s codes=0 rv=- pre=- post=-", h, strings.Replace(flying[r.Intn(len(flying))], "-", ".", 1))
+				}
+				ops = append(ops, u)
+			case x < 19:
+				ops = append(ops, fmt.Sprintf("reapn n=%d", r.Intn(size+3)-1))
+			default:
+				ops = append(ops, "reap bytes=-1 gas=-1")
+			}
+		}
+		for ; pend > 0; pend-- {
+			ops = append(ops, "finish i=0 code=0 gas=1 prio=1 sender=-")
+		}
+		emit(core.Case{Kind: "split-v1", Ops: ops})
+	}
+}
+
 // genHostile: malformed / out-of-contract op lines (negative limits, unknown ops, bad hex, ops before cfg).
 func genHostile(r *rand.Rand, emit func(core.Case), n int) {
 	bad := []string{
@@ -2079,6 +2324,7 @@ func main() {
 			genAsync(r, emit, n/2)
 			genTTL(r, emit, n/2)
 			genAsyncCommit(r, emit, n/4)
+			genSplit(r, emit, n/2)
 			genBigV1(r, emit, n/20)
 			genVarint(r, emit, n/10, 0)
 			genVarint(r, emit, n/10, 1)
